@@ -38,12 +38,12 @@ var loadedModules []*Module
 type Module struct {
 	// wrapCache: wrapper function -> the function it delegates to (nil: none)
 	wrapCache map[*ssa.Function]*ssa.Function
-	Dir     string
-	ModPath string
-	Fset    *token.FileSet
-	Pkgs    []*packages.Package
-	Prog    *ssa.Program
-	SSAPkgs map[string]*ssa.Package // by import path
+	Dir       string
+	ModPath   string
+	Fset      *token.FileSet
+	Pkgs      []*packages.Package
+	Prog      *ssa.Program
+	SSAPkgs   map[string]*ssa.Package // by import path
 	// Funcs lists every source-level function of the module (declared
 	// functions, methods, closures and package initialisers), sorted by
 	// position, synthetic wrappers excluded.
